@@ -9,6 +9,9 @@
 #ifndef RC_REF_H
 #define RC_REF_H
 #include <stdint.h>
+#ifndef RCREF_FN
+#define RCREF_FN
+#endif
 
 typedef struct {
    const unsigned char *frame;   /* the Opus frame handed to the range decoder */
@@ -23,10 +26,11 @@ typedef struct {
    int      broken;              /* internal invariant (32-bit range of val/rng, rng > 2**23) violated */
 } rcref;
 
-static int rcref_ilog(uint64_t x){ int n=0; while(x){ n++; x>>=1; } return n; }
+/* ilog(x): "the number of bits required to store x", 0 for 0 */
+RCREF_FN static int rcref_ilog(uint64_t x){ return x ? 64-__builtin_clzll(x) : 0; }
 
 /* "Renormalization": repeat until rng > 2**23 */
-static void rcref_renorm(rcref *r){
+RCREF_FN static void rcref_renorm(rcref *r){
    while (r->rng <= ((uint64_t)1<<23)){
       unsigned byte, sym;
       r->nbits_total += 8;                                   /* "Each iteration ... increases nbits_total by 8" */
@@ -40,7 +44,7 @@ static void rcref_renorm(rcref *r){
 }
 
 /* "Range Decoder Initialization" */
-static void rcref_init(rcref *r, const unsigned char *frame, uint32_t nbytes){
+RCREF_FN static void rcref_init(rcref *r, const unsigned char *frame, uint32_t nbytes){
    unsigned b0;
    r->frame=frame; r->nbytes=nbytes; r->next=0; r->rawpos=0; r->corrupt=0; r->broken=0; r->q=0;
    b0 = r->next < r->nbytes ? r->frame[r->next++] : 0;       /* "first input byte (or zero if there are no bytes)" */
@@ -52,7 +56,7 @@ static void rcref_init(rcref *r, const unsigned char *frame, uint32_t nbytes){
 }
 
 /* "Decoding Symbols", first step: fs = ft - min(val/(rng/ft) + 1, ft) */
-static uint32_t rcref_decode(rcref *r, uint64_t ft){
+RCREF_FN static uint32_t rcref_decode(rcref *r, uint64_t ft){
    uint64_t s;
    r->q = r->rng/ft;
    if (r->q==0){ r->broken=1; return 0; }
@@ -60,7 +64,7 @@ static uint32_t rcref_decode(rcref *r, uint64_t ft){
    return (uint32_t)(ft - (s<ft?s:ft));
 }
 /* second step, with the three-tuple (fl,fh,ft) of the identified symbol */
-static void rcref_update(rcref *r, uint64_t fl, uint64_t fh, uint64_t ft){
+RCREF_FN static void rcref_update(rcref *r, uint64_t fl, uint64_t fh, uint64_t ft){
    uint64_t d = (r->rng/ft)*(ft-fh);
    if (d > r->val) r->broken = 1;                            /* would leave the 32-bit unsigned domain */
    r->val = r->val - d;                                      /* val = val - rng/ft*(ft-fh) */
@@ -71,11 +75,11 @@ static void rcref_update(rcref *r, uint64_t fl, uint64_t fh, uint64_t ft){
 }
 
 /* 4.1.3.1 ec_decode_bin(): "mathematically equivalent to calling ec_decode() with ft = (1<<ftb)" */
-static uint32_t rcref_decode_bin(rcref *r, unsigned ftb){ return rcref_decode(r,(uint64_t)1<<ftb); }
+RCREF_FN static uint32_t rcref_decode_bin(rcref *r, unsigned ftb){ return rcref_decode(r,(uint64_t)1<<ftb); }
 
 /* 4.1.3.2 ec_dec_bit_logp(): ec_decode(1<<logp), then update with (0,(1<<logp)-1,1<<logp) if fs<(1<<logp)-1 ("0"),
    with ((1<<logp)-1,1<<logp,1<<logp) otherwise ("1") */
-static int rcref_bit_logp(rcref *r, unsigned logp){
+RCREF_FN static int rcref_bit_logp(rcref *r, unsigned logp){
    uint64_t ft=(uint64_t)1<<logp; uint32_t fs=rcref_decode(r,ft);
    if (fs < ft-1){ rcref_update(r,0,ft-1,ft); return 0; }
    rcref_update(r,ft-1,ft,ft); return 1;
@@ -83,7 +87,7 @@ static int rcref_bit_logp(rcref *r, unsigned logp){
 
 /* 4.1.3.3 ec_dec_icdf(): ec_decode(1<<ftb); search for the first k with fs < (1<<ftb)-icdf[k];
    update with fl=(1<<ftb)-icdf[k-1] (0 if k==0), fh=(1<<ftb)-icdf[k], ft=1<<ftb.  Table ends with 0. */
-static int rcref_icdf_any(rcref *r, const unsigned char *t8, const uint16_t *t16, unsigned ftb){
+RCREF_FN static int rcref_icdf_any(rcref *r, const unsigned char *t8, const uint16_t *t16, unsigned ftb){
    uint64_t ft=(uint64_t)1<<ftb, fl=0, fh; uint32_t fs=rcref_decode(r,ft); int k=0;
    for(;;){
       unsigned e = t8 ? t8[k] : t16[k];
@@ -95,13 +99,13 @@ static int rcref_icdf_any(rcref *r, const unsigned char *t8, const uint16_t *t16
    rcref_update(r,fl,fh,ft);
    return k;
 }
-static int rcref_icdf(rcref *r, const unsigned char *icdf, unsigned ftb){ return rcref_icdf_any(r,icdf,0,ftb); }
-static int rcref_icdf16(rcref *r, const uint16_t *icdf, unsigned ftb){ return rcref_icdf_any(r,0,icdf,ftb); }
+RCREF_FN static int rcref_icdf(rcref *r, const unsigned char *icdf, unsigned ftb){ return rcref_icdf_any(r,icdf,0,ftb); }
+RCREF_FN static int rcref_icdf16(rcref *r, const uint16_t *icdf, unsigned ftb){ return rcref_icdf_any(r,0,icdf,ftb); }
 
 /* "Decoding Raw Bits": "the least significant bit of the first value packed in the least significant bit of the
    last byte, filling up to the most significant bit in the last byte, continuing on to the least significant bit
    of the penultimate byte".  Bits beyond the frame read as zero (the text leaves that case to the decoder). */
-static uint32_t rcref_bits(rcref *r, unsigned n){
+RCREF_FN static uint32_t rcref_bits(rcref *r, unsigned n){
    uint32_t v=0; unsigned i;
    for(i=0;i<n;i++){
       uint64_t p=r->rawpos+i, byte=p>>3;
@@ -114,7 +118,7 @@ static uint32_t rcref_bits(rcref *r, unsigned n){
 }
 
 /* "Decoding Uniformly Distributed Integers" */
-static uint32_t rcref_uint(rcref *r, uint64_t ft){
+RCREF_FN static uint32_t rcref_uint(rcref *r, uint64_t ft){
    int ftb = rcref_ilog(ft-1);
    uint64_t t;
    if (ftb<=8){
@@ -133,11 +137,11 @@ static uint32_t rcref_uint(rcref *r, uint64_t ft){
 }
 
 /* "ec_tell()": nbits_total - ilog(rng) */
-static int64_t rcref_tell(const rcref *r){ return r->nbits_total - rcref_ilog(r->rng); }
+RCREF_FN static int64_t rcref_tell(const rcref *r){ return r->nbits_total - rcref_ilog(r->rng); }
 
 /* "ec_tell_frac()": r_Q15 = rng>>(lg-16); three times { r=(r*r)>>15; lg=2*lg+(r>>16); if that bit was 1, r>>=1 };
    returns nbits_total*8 - lg */
-static int64_t rcref_frac_of(int64_t nbits_total, uint64_t rng){
+RCREF_FN static int64_t rcref_frac_of(int64_t nbits_total, uint64_t rng){
    int64_t lg = rcref_ilog(rng); uint64_t rq = rng>>(lg-16); int i;
    for(i=0;i<3;i++){
       uint64_t b;
@@ -148,6 +152,6 @@ static int64_t rcref_frac_of(int64_t nbits_total, uint64_t rng){
    }
    return nbits_total*8 - lg;
 }
-static int64_t rcref_tell_frac(const rcref *r){ return rcref_frac_of(r->nbits_total, r->rng); }
+RCREF_FN static int64_t rcref_tell_frac(const rcref *r){ return rcref_frac_of(r->nbits_total, r->rng); }
 
 #endif
